@@ -92,3 +92,8 @@ def probes(case, layers, view, img):
 
 def req_meta_bytes(cfg, img, off, ln):
     return 16 * (ln // cfg["block"] + 2) + 64
+
+
+def meta_model(cfg):
+    return (cfg['block'], 16, 64)
+    # (guest bytes covered by one second-level table, bytes of one such table, bytes of the top-level table read lazily)
